@@ -200,7 +200,7 @@ func genOp(rng *rand.Rand, p E2E, conn, caller int, counter uint64) *Op {
 	if rng.Intn(4) == 0 {
 		o.Spec.DelayUs = 0
 	}
-	if p.Run%3 == 0 {
+	if p.Run%2 == 0 {
 		// handler delays from a tiny set: many handlers of one connection
 		// finish at the same (virtual) instant and write their responses
 		// truly in parallel
